@@ -16,6 +16,9 @@ import sys
 ALWAYS_FAIL = ("test_conformer_to_lib", "test_ensemble_lib", "test_load_all", "test_loads_all")
 
 
+ENGINE = os.environ.get("SEED_ENGINE", "/verif")  # a frozen worktree of /verif may judge while /verif itself is being edited
+
+
 def sh(cmd, cwd=None, timeout=1800):
     p = subprocess.run(cmd, shell=True, cwd=cwd, capture_output=True, text=True, timeout=timeout)
     return p.returncode, p.stdout + p.stderr
@@ -71,14 +74,14 @@ def check(prop, m, tiers=("quick",), src=None):
     try:
         for tier in tiers:
             for p in claimed():
-                rc, out = sh(f"/venv/bin/python sa/check.py {p} --tier {tier} --quiet", "/verif")
+                rc, out = sh(f"/venv/bin/python sa/check.py {p} --tier {tier} --quiet", ENGINE)
                 v = [l for l in out.splitlines() if l.startswith("VIOLATION") or "violated:" in l or l.startswith("ANALYSIS-ERROR")]
                 if rc != 0:
                     caught[f"{p}/{tier}"] = dict(exit=rc, lines=[l.strip()[:260] for l in v][:6])
     finally:
         sh("git checkout -- .", "/repo")
         # evidence files were rewritten by the runs on the mutated tree: restore them
-        sh("git checkout -- evidence", "/verif")
+        sh("git checkout -- evidence", ENGINE)
     print(json.dumps(caught, indent=1))
     return caught
 
@@ -92,7 +95,7 @@ def keep(prop, m, sid, caught, verified):
             shutil.copy(f"{src}/{f}", f"{dst}/{f}")
     note = open(f"{src}/note.md").read() if os.path.exists(f"{src}/note.md") else ""
     meta = dict(
-        id=sid, property=prop.lstrip("W"), origin="independent sub-agent given only the property text and a scratch worktree",
+        id=sid, property=prop.lstrip("WX"), origin="independent sub-agent given only the property text and a scratch worktree",
         base_commit=sh("git rev-parse --short HEAD", f"/tmp/wt_{prop}")[1].strip(),
         needs_to_manifest=note.strip().split("\n\n")[0][:600],
         confirmed=verified,
